@@ -29,6 +29,9 @@ type SeqOut struct {
 	Viols []Violation
 	Evals int // oracle evaluations (read-backs) performed
 	Cut   bool // the budget ran out inside this history's oracle loop
+	// Known: deviations that are reported (and matched against known_findings.json) but do not
+	// stop the search from extending this state.
+	Known []Violation
 }
 
 type seqJob struct {
@@ -101,8 +104,12 @@ func SeqExec(j *Job, run func(cfg int, hist []int) *SeqOut) *JobResult {
 		if len(res.Samples) < 2 {
 			res.Samples = append(res.Samples, fmt.Sprintf("cfg=%d history=%v -> %s", sj.Cfg, h, out.Obs))
 		}
-		for _, v := range out.Viols {
-			if len(res.Viols) < 24 {
+		for _, v := range append(append([]Violation{}, out.Viols...), out.Known...) {
+			dup := false
+			for _, o := range res.Viols {
+				dup = dup || o.Sig == v.Sig
+			}
+			if len(res.Viols) < 24 && !dup {
 				jj := *j
 				e, _ := json.Marshal(seqJob{Hist: h, N: sj.N, Cfg: sj.Cfg})
 				jj.Extra, jj.Bound, jj.Until, jj.Budget = e, -1, 0, 0
